@@ -158,8 +158,9 @@ func (maybeSelf someDef[T]) ToMaybe() MaybeDef[T] {
 	switch (ref).(type) {
 	default:
 		return maybeSelf
-	case someDef[T]:
-		return (ref).(someDef[T])
+	case MaybeDef[T]:
+		// any nested Maybe of the same element type: someDef[T], and None when T is interface{}
+		return (ref).(MaybeDef[T])
 	}
 }
 
